@@ -6,6 +6,9 @@ From SV Require Import Base.Bytes Generated.SourceParams.
 Import ListNotations.
 From SV Require Import Model.Event.
 
+Lemma event_translated : (src_problems_event_queue + src_problems_event_fmt = 0)%nat.
+Proof. reflexivity. Qed.
+
 Lemma event_queue_cap_tie : N.of_nat queue_cap = src_event_queue_cap.
 Proof. reflexivity. Qed.
 
